@@ -123,7 +123,7 @@ func (fv *FuncVerifier) evalCall(st *State, env *Env, call *ast.CallExpr) []Term
 				recvType = fv.typeOf(env, sel.X)
 				// promoted methods through embedded fields
 				if len(s.Index()) > 1 {
-					if fv.prog.ByObj[fn.Origin()] != nil {
+					if fv.prog.ByObj[fn.Origin()] != nil || fv.prog.IfaceContracts[ifaceKey(fn)] != nil {
 						recv = fv.walkFields(st, env, recv, recvType, s.Index()[:len(s.Index())-1], sel.Sel.Pos())
 						if r := fn.Type().(*types.Signature).Recv(); r != nil {
 							recvType = r.Type()
@@ -1952,9 +1952,11 @@ func (fv *FuncVerifier) callUnknown(st *State, env *Env, call *ast.CallExpr, fn 
 				obj := Null
 				if len(args) > 1 {
 					obj = args[1]
+				} else if len(args) == 1 && args[0].Sort == SRef {
+					obj = args[0] // one-argument methods (SnippetWriter.Render): the argument is the object of the call
 				}
 				errT := Null
-				if len(res) > 0 {
+				if len(res) > 0 && res[len(res)-1].Sort == SRef {
 					errT = res[len(res)-1]
 				}
 				fv.appendCall(st, kind, recv, obj, errT)
